@@ -1,4 +1,5 @@
 """C08 — month arithmetic and roll-day rules: the table clauses (IMM table, roll dispatch, day capping, end of month, leap year)."""
+import re
 import cel, paths, hir
 from cel import Poly, Sym, Rec, Tup, Alt, Unsupported, vkey
 from rules.dates_common import R, P, S, D, hooks as date_hooks, LV, ITER
@@ -142,7 +143,231 @@ def run(ck, facts, tier):
             ck.check(r4, nm, ok, "%s does not compare the date with %s(date.year(), date.month())" % (nm, getter), "%s:%d" % (r["file"], r["line"]), detail=cel.vfmt(got)[:200], sample="date == %s(y, m)" % getter)
         except Unsupported as e:
             ck.fail(r4, nm, "rule could not be established (%s)" % e)
-    ck.not_decided += ["the year/month carry arithmetic of add_months (yr_roll, rem_euclid, the <=0 / >=13 branches): an arithmetic identity over all (month, offset) pairs — "
-                       "no structural argument bounds it and evaluating it over the pairs would be executing it; declared not decided",
+    carry_rule(ck, facts, hk)
+    ck.not_decided += ["that chrono's month() lies in 1..=12 and that |months| stays below i32::MAX (abs() of i32::MIN) — contracts of the inputs, assumed by R08.5",
                        "Gregorian validity itself (delegated to chrono::NaiveDate::from_ymd_opt)"]
     ck.trusted += ["chrono::NaiveDate::from_ymd_opt validity", "lib/cel.py"]
+
+
+# ---------------------------------------------------------------- R08.5 the year/month carry of add_months, by value-set analysis of the path formulas
+class NotRecognised(Exception):
+    pass
+
+
+F = cel.F
+
+
+def _strip(k):
+    """peel conversions that cannot change an in-range month/year number: unwrap/expect, try_into/try_from/into/from, casts are already erased"""
+    while isinstance(k, tuple) and k[:2] == ("sym", "m") and k[2] in ("unwrap", "expect", "try_into", "into") and len(k) == 5 and k[4] == ():
+        k = k[3]
+    if isinstance(k, tuple) and k[:2] == ("sym", "call") and re.search(r"(TryFrom|From)<\w+> for \w+>::(try_)?from$", k[2]) and len(k[3]) == 1:
+        return _strip(k[3][0])
+    if isinstance(k, tuple) and k[:2] == ("sym", "ctor") and k[2] == "Ok" and len(k) == 4:
+        return _strip(k[3])
+    return k
+
+
+class Lin:
+    """cQ*Q + cY*Y + a*t + c, or rem_euclid(inner, 12) with inner a Lin free of Q and Y."""
+    def __init__(self, cQ=0, cY=0, a=0, c=0, rem=None):
+        self.cQ, self.cY, self.a, self.c, self.rem = F(cQ), F(cY), F(a), F(c), rem
+
+    def at(self, t):
+        if self.rem is not None:
+            v = self.rem.at(t)
+            if v.denominator != 1:
+                raise NotRecognised("rem_euclid of a non-integer")
+            return F(int(v) % 12)
+        return self.a * t + self.c
+
+    def plus(self, o, sign=1):
+        if self.rem is not None or o.rem is not None:
+            raise NotRecognised("arithmetic on a rem_euclid result")
+        return Lin(self.cQ + sign * o.cQ, self.cY + sign * o.cY, self.a + sign * o.a, self.c + sign * o.c)
+
+
+DATE = vkey(D)
+MONTHS = Poly.atom("months")
+Q_FORMS = None
+
+
+def q_forms():
+    """accepted spellings of the whole-years quotient, with the range of the remainder R = months - 12 Q each implies:
+    trunc(months / 12) (Rust's integer `/` truncates toward zero) -> |R| <= 11; months.div_euclid(12) (floor) -> 0 <= R <= 11"""
+    a = Poly.atom(("idiv", cel.func_atom("abs", MONTHS).key(), Poly.const(12).key())) * cel.func_atom("signum", MONTHS)
+    b = Poly.atom(("idiv", MONTHS.key(), Poly.const(12).key()))
+    c = cel.func_atom("trunc", MONTHS * Poly.const(12).inv())
+    d = Poly.atom(("ediv", MONTHS.key(), Poly.const(12).key()))
+    return {next(iter(x.t))[0]: rng for x, rng in ((a, (-11, 11)), (b, (-11, 11)), (c, (-11, 11)), (d, (0, 11)))}
+
+
+R_RANGE = []
+
+
+def lin_of(k):
+    k = _strip(k)
+    if isinstance(k, tuple) and k[:2] == ("sym", "m") and k[2] in ("month", "month0", "year") and k[3] == DATE and k[4] == ():
+        if k[2] == "month":
+            return ("MON", Lin())
+        if k[2] == "year":
+            return Lin(cY=1)
+        raise NotRecognised("month0")
+    if isinstance(k, tuple) and k[:3] == ("sym", "op", "Add") or isinstance(k, tuple) and k[:3] == ("sym", "op", "Sub"):
+        l, r = lin2(k[3]), lin2(k[4])
+        return combine(l, r, 1 if k[2] == "Add" else -1)
+    if isinstance(k, tuple) and k[:3] == ("sym", "m", "rem_euclid") and len(k) == 5 and len(k[4]) == 1 and k[4][0] == Poly.const(12).key():
+        inner = close(lin2(k[3]))
+        if inner.cQ or inner.cY:
+            raise NotRecognised("rem_euclid of a year-dependent quantity")
+        return Lin(rem=inner)
+    if isinstance(k, tuple) and len(k) == 2 and isinstance(k[0], int):       # polynomial key
+        p = cel.poly_from_key(k)
+        out = {"lin": Lin(), "mon": F(0), "r": F(0)}
+        qf = q_forms()
+        for (mono, tens), coef in p.t.items():
+            if tens is not None:
+                raise NotRecognised("tensor")
+            if mono == ():
+                out["lin"].c += coef
+            elif mono == (("months", 1),):
+                out["lin"].cQ += 12 * coef       # months = 12 Q + R
+                out["r"] += coef
+            elif mono in qf:
+                out["lin"].cQ += coef
+                if qf[mono] not in R_RANGE:
+                    R_RANGE.append(qf[mono])
+            elif len(mono) == 1 and mono[0][1] == 1 and isinstance(mono[0][0], tuple):
+                sub = lin2(mono[0][0])
+                out = _acc(out, sub, coef)
+            else:
+                raise NotRecognised("term %s" % cel.Poly({(mono, None): coef}).fmt()[:80])
+        return out
+    raise NotRecognised(repr(k)[:100])
+
+
+def _acc(out, sub, coef):
+    sub = norm(sub)
+    if sub["lin"].rem is not None:
+        raise NotRecognised("scaled rem_euclid")
+    out["lin"] = out["lin"].plus(Lin(sub["lin"].cQ * coef, sub["lin"].cY * coef, 0, sub["lin"].c * coef))
+    out["mon"] += coef * sub["mon"]
+    out["r"] += coef * sub["r"]
+    return out
+
+
+def norm(x):
+    if isinstance(x, tuple) and x[0] == "MON":
+        return {"lin": Lin(), "mon": F(1), "r": F(0)}
+    if isinstance(x, Lin):
+        return {"lin": x, "mon": F(0), "r": F(0)}
+    return x
+
+
+def lin2(k):
+    return norm(lin_of(k))
+
+
+def combine(l, r, sign):
+    if l["lin"].rem is not None or r["lin"].rem is not None:
+        raise NotRecognised("arithmetic on a rem_euclid result")
+    return {"lin": l["lin"].plus(r["lin"], sign), "mon": l["mon"] + sign * r["mon"], "r": l["r"] + sign * r["r"]}
+
+
+def close(x):
+    """month and remainder may only occur through their sum t"""
+    x = norm(x)
+    if x["lin"].rem is not None:
+        if x["mon"] or x["r"]:
+            raise NotRecognised("mixed rem")
+        return x["lin"]
+    if x["mon"] != x["r"]:
+        raise NotRecognised("the start month and the remainder months do not enter through their sum (coefficients %s, %s)" % (x["mon"], x["r"]))
+    l = x["lin"]
+    return Lin(l.cQ, l.cY, x["mon"], l.c)
+
+
+def cond_at(atom, pol, t):
+    """truth of one path literal at t (None if it does not concern the carry)"""
+    if not (isinstance(atom, tuple) and atom[:2] == ("sym", "cmp")):
+        raise NotRecognised("condition " + repr(atom)[:100])
+    rel = atom[2]
+    if len(atom) == 4:
+        v = close(lin2(atom[3]))
+        if v.cQ or v.cY:
+            raise NotRecognised("a branch condition depends on the year part")
+        x = v.at(t)
+        val = {"Lt": x < 0, "Le": x <= 0, "Eq": x == 0, "Ne": x != 0, "Gt": x > 0, "Ge": x >= 0}[rel]
+    else:
+        a, b = close(lin2(atom[3])), close(lin2(atom[4]))
+        if a.cQ or a.cY or b.cQ or b.cY:
+            raise NotRecognised("a branch condition depends on the year part")
+        x, y = a.at(t), b.at(t)
+        val = {"Lt": x < y, "Le": x <= y, "Eq": x == y, "Ne": x != y, "Gt": x > y, "Ge": x >= y}[rel]
+    return val if pol else not val
+
+
+def carry_rule(ck, facts, hk):
+    r5 = ck.rule("R08.5", "add_months carry, by value-set analysis of the path formulas: with Q = trunc(months/12) (so months = 12Q + R, |R| <= 11) and t = month + R in "
+                          "-10..23, every path's feasible t-set is computed from its branch conditions; on each, get_roll receives year = date.year() + Q + c and a month "
+                          "m(t) with 12c + m(t) = t and 1 <= m(t) <= 12 — i.e. 12*year' + month' = 12*year + month + months; the paths' t-sets partition -10..23", floor=5)
+    fn = MOD + "DateRoll::add_months"
+    r = facts.fn(fn)
+    where = "%s:%d" % (r["file"], r["line"]) if r else None
+    try:
+        h2 = {k: v for k, v in hk.items() if not k.endswith("::add_months")}
+        mods, MODI, ST = MONTHS, Sym("param", "modifier"), Sym("param", "settlement")
+        val = Sym("ctor", "IMM", Rec("calendars::dateroll::RollDay", {}))
+        got = cel.Ev(facts, hooks=h2).apply_fn(fn, [S, D, mods, MODI, val, ST], 0)
+        cover = {}
+        npaths = 0
+        del R_RANGE[:]
+        T_LO, T_HI = 1 - 11, 12 + 11
+        for c, v in paths.flatten(got):
+            gr = None
+            for k in walk_keys(vkey(v)):
+                if isinstance(k, tuple) and k[:3] == ("sym", "roll", "get_roll"):
+                    gr = k
+            if gr is None:
+                ck.fail(r5, "path#%d" % npaths, "a path of add_months does not end in get_roll(year, month, roll)", where, detail=cel.vfmt(v)[:300])
+                npaths += 1
+                continue
+            lits = paths.atoms(c)
+            yv = close(lin2(gr[3]))            # first: the year expression names the quotient form in use, which fixes the remainder's range
+            if len(R_RANGE) != 1:
+                raise NotRecognised("the whole-years quotient is not one of trunc(months/12) / months.div_euclid(12) (forms seen: %d)" % len(R_RANGE))
+            T_LO, T_HI = 1 + R_RANGE[0][0], 12 + R_RANGE[0][1]
+            feas = [t for t in range(T_LO, T_HI + 1) if all(cond_at(a, p, t) for a, p in lits)]
+            if not feas:
+                continue                      # infeasible combination of tests (e.g. 1 <= t <= 12 and t == 0)
+            npaths += 1
+            mv = close(lin2(gr[4]))
+            key = "t in %s..%s" % (feas[0], feas[-1]) if feas == list(range(feas[0], feas[-1] + 1)) else "t in %s" % feas
+            ok_y = yv.rem is None and yv.cY == 1 and yv.cQ == 1 and yv.a == 0 and yv.c.denominator == 1
+            ck.check(r5, key + ":year", ok_y, "the year handed to get_roll is not date.year() + trunc(months/12) + constant carry", where, sample="year + Q + (%s)" % yv.c)
+            bad = []
+            if ok_y and not (mv.cQ or mv.cY):
+                for t in feas:
+                    m = mv.at(t)
+                    if 12 * yv.c + m != t or not (1 <= m <= 12):
+                        bad.append((t, str(m)))
+            else:
+                bad = [("month depends on the year part", "")]
+            ck.check(r5, key + ":month", not bad, "month + remainder = t with carry %s gives month' = m(t) where 12*carry + m(t) != t or m(t) outside 1..12, at (t, m): %s "
+                     "(e.g. t = 0 is January minus one month, t = 13 is December plus one)" % (yv.c, bad[:4]), where, sample="12*(%s) + m(t) = t, 1 <= m <= 12 on %s" % (yv.c, key))
+            for t in feas:
+                cover[t] = cover.get(t, 0) + 1
+        full = all(cover.get(t, 0) == 1 for t in range(T_LO, T_HI + 1))
+        ck.check(r5, "partition", full and npaths >= 1, "the feasible t-sets of the paths do not partition the range of t (uncovered or doubly covered: %s)"
+                 % [t for t in range(T_LO, T_HI + 1) if cover.get(t, 0) != 1][:6], where, sample="%d feasible paths cover t = %d..%d exactly once" % (npaths, T_LO, T_HI))
+    except NotRecognised as e:
+        ck.fail(r5, "add_months:carry", "carry arithmetic not in the analysed form (%s)" % e, where)
+    except Unsupported as e:
+        ck.fail(r5, "add_months:carry", "rule could not be established (%s)" % e, where)
+
+
+def walk_keys(k):
+    yield k
+    if isinstance(k, tuple):
+        for x in k:
+            yield from walk_keys(x)
